@@ -8,6 +8,8 @@ import LLRP.Oracle.C14
 import LLRP.Oracle.C15
 import LLRP.Oracle.C12
 import LLRP.Oracle.C20
+import LLRP.Oracle.C04
+import LLRP.Oracle.C10
 /-!
 `oracle`: line-protocol driver of the executable models (one request per line on stdin, one reply per line on
 stdout). Imports only `LLRP.Model.*`, `LLRP.Gen.*` and `LLRP.Oracle.*` (never Mathlib, never proofs) so that it
@@ -25,7 +27,9 @@ def handlers : List Handler := [
   handleC14,
   handleC15,
   handleC12,
-  handleC20
+  handleC20,
+  handleC04,
+  handleC10
 ]
 
 def handle (line : String) : String :=
